@@ -66,6 +66,9 @@ def eval_real(pt, case):
     if mode == "energy":
         res = nsf.neutron_scattering(f, energy=case["w"][0])
         return f.density, atoms, [nc.scat_tuple(res)], [float(nsf.neutron_wavelength(case["w"][0]))]
+    if mode == "default":
+        # documented: "wavelength 1.798 : Neutron wavelength (default=1.798 Ang)"
+        return f.density, atoms, [nc.scat_tuple(nsf.neutron_scattering(f))], [1.798]
     import numpy as np
     ws = case["w"]
     arg = np.array(ws) if case.get("array", True) else list(ws)
@@ -82,6 +85,8 @@ def model_line(case, density, atoms):
         return "scat %s %s %s" % (f2h(density), f2h(case["w"][0]), toks)
     if case["mode"] == "energy":
         return "scate %s %s %s" % (f2h(density), f2h(case["w"][0]), toks)
+    if case["mode"] == "default":
+        return "scatd %s %s" % (f2h(density), toks)
     return "scatv %s %d %s %s" % (f2h(density), len(case["w"]), " ".join(f2h(x) for x in case["w"]), toks)
 
 
@@ -168,8 +173,8 @@ def stage_atoms(run, pt, orc, tl, pools, quick):
         for w in ws:
             m_atom = nc.parse_outcome(next(rep))
             m_cmp = nc.parse_outcome(next(rep))
-            r1 = nc.scat_tuple(n.scattering(wavelength=w))
-            r2 = n.sld(wavelength=w)
+            r1 = nc.scat_tuple(n.scattering(wavelength=w) if w != 1.798 else n.scattering())
+            r2 = n.sld(wavelength=w) if w != 1.798 else n.sld()
             r3 = nc.scat_tuple(nsf.neutron_scattering(atom, wavelength=w))
             r4 = nsf.neutron_sld(atom, wavelength=w)
             N = n._number_density * 1e-24
@@ -278,7 +283,9 @@ def gen_case(rng, pools):
     case = dict(atoms=[[k[0], k[1], k[2], c] for k, c in atoms], density=nc.gen_density(rng))
     if rng.random() < 0.25:
         case["natural"] = True
-    if r < 0.45:
+    if r < 0.08:
+        case.update(mode="default", w=[1.798])
+    elif r < 0.45:
         case.update(mode="wavelength", w=[nc.gen_wavelength(rng, pools)])
     elif r < 0.65:
         from periodictable import nsf
@@ -312,6 +319,8 @@ def run_cases(run, pt, orc, tl, cases, corr, tag=None):
 
 
 FIXED_CASES = [
+    dict(atoms=[[1, 0, 0, 2.0], [8, 0, 0, 1.0]], density=1.0, mode="default", w=[1.798]),
+    dict(atoms=[[64, 0, 0, 2.0], [8, 0, 0, 3.0]], density=7.4, mode="default", w=[1.798]),
     # vacuum: zero density / empty compound
     dict(atoms=[[1, 0, 0, 2.0], [8, 0, 0, 1.0]], density=0.0, mode="wavelength", w=[1.798]),
     dict(atoms=[], density=1.0, mode="wavelength", w=[1.798]),
